@@ -216,3 +216,105 @@ Definition ws_entries (repaired : bool) (acct feeacct trading : account) (r : li
 (* what the row as a whole does to the account in commodity c: the sum over its entries *)
 Definition ws_row_change (repaired : bool) (acct feeacct trading : account) (r : list str) (c : commodity) : Q :=
   fold_right (fun e s => (expected (re_changes (en_fact e)) c + s)%Q) 0%Q (ws_entries repaired acct feeacct trading r).
+
+(* ---- ch.swissquote: Datum, Auftrag #, Transaktionen, Symbol, Name, ISIN, Anzahl, Stückpreis,
+   Kosten, Aufgelaufene Zinsen, Nettobetrag, Saldo, Währung.  The kind of a row is given by
+   Transaktionen.  The cash of the account changes by Nettobetrag in Währung; a purchase/sale
+   also changes the holding of Symbol by Anzahl (a sale, recognised by positive proceeds
+   Nettobetrag + Kosten, lowers it).  The two rows of a currency exchange (Forex-Gutschrift /
+   Forex-Belastung, Fx-... Comp.) form ONE entry.  A dividend row is read as Stückpreis (gross)
+   less Kosten (withholding tax). *)
+Inductive sq_kind_t := SqTrade | SqForex | SqDividend | SqCustody | SqTransfer | SqInterest | SqOther.
+Definition sqs_in (l : list str) (s : str) : bool := existsb (str_eqb s) l.
+Definition sqs_forex : list str :=
+  [[70;111;114;101;120;45;71;117;116;115;99;104;114;105;102;116]; [70;111;114;101;120;45;66;101;108;97;115;116;117;110;103];
+   [70;120;45;71;117;116;115;99;104;114;105;102;116;32;67;111;109;112;46]; [70;120;45;66;101;108;97;115;116;117;110;103;32;67;111;109;112;46]]%Z.
+Definition sqs_dividend : list str :=
+  [[67;97;112;105;116;97;108;32;71;97;105;110]; [75;97;112;105;116;97;108;114;195;188;99;107;122;97;104;108;117;110;103];
+   [68;105;118;105;100;101;110;100;101]]%Z.
+Definition sqs_transfer : list str :=
+  [[69;105;110;122;97;104;108;117;110;103]; [65;117;115;122;97;104;108;117;110;103];
+   [86;101;114;103;195;188;116;117;110;103]; [66;101;108;97;115;116;117;110;103]]%Z.
+Definition sqs_kind (r : list str) : sq_kind_t :=
+  let t := field r 2 in
+  if str_eqb t [75;97;117;102]%Z || str_eqb t [86;101;114;107;97;117;102]%Z then SqTrade
+  else if sqs_in sqs_forex t then SqForex
+  else if sqs_in sqs_dividend t then SqDividend
+  else if str_eqb t [68;101;112;111;116;103;101;98;195;188;104;114;101;110]%Z then SqCustody
+  else if sqs_in sqs_transfer t then SqTransfer
+  else if str_eqb t [90;105;110;115]%Z then SqInterest
+  else SqOther.
+Definition sqs_dec (r : list str) (i : nat) : dec := dec_or0 (new_from_string (remove_byte 39 (field r i))).
+Definition sqs_dec_ok (r : list str) (i : nat) : bool := is_some (new_from_string (remove_byte 39 (field r i))).
+Definition sqs_date (r : list str) : Z := date_or0 (parse_dmy_dash (firstn 10 (field r 0))).
+Definition sqs_cur (r : list str) : commodity := field r 12.
+Definition sqs_sym (r : list str) : commodity := field r 3.
+Definition sqs_net (r : list str) : dec := sqs_dec r 10.
+Definition sqs_wf_row (r : list str) : bool :=
+  len_is r 13 && Nat.leb 10 (length (field r 0)) && is_some (parse_dmy_dash (firstn 10 (field r 0))) &&
+  (is_empty (field r 3) || valid_name (field r 3)) &&
+  sqs_dec_ok r 6 && sqs_dec_ok r 7 && sqs_dec_ok r 8 && sqs_dec_ok r 9 && sqs_dec_ok r 10 && sqs_dec_ok r 11 &&
+  valid_name (field r 12) &&
+  match sqs_kind r with SqTrade | SqDividend => negb (is_empty (field r 3)) | _ => true end.
+
+Definition tentry := (entry * option (list commodity))%type.   (* an entry and its performance annotation *)
+
+Definition sqs_trade (acct fee trading : account) (r : list str) : tentry :=
+  let proceeds := add (sqs_net r) (sqs_dec r 8) in
+  let q := if is_pos proceeds then neg (sqs_dec r 6) else sqs_dec r 6 in
+  (mkEntry (mkEffect (sqs_date r) [(sqs_sym r, q); (sqs_cur r, sqs_net r)])
+           [mkLeg trading acct (sqs_sym r) q; mkLeg trading acct (sqs_cur r) proceeds; mkLeg fee acct (sqs_cur r) (neg (sqs_dec r 8))]
+           (field r 1 ++ [32%Z] ++ field r 2 ++ [32%Z] ++ to_string (sqs_dec r 6) ++ [32;120;32]%Z ++ sqs_sym r ++ [32%Z] ++ field r 4 ++
+            [32%Z] ++ field r 5 ++ [32;64;32]%Z ++ to_string (sqs_dec r 7) ++ [32%Z] ++ sqs_cur r),
+   Some [sqs_sym r; sqs_cur r]).
+(* first leg l, second leg r; dated on the second leg *)
+Definition sqs_exchange (acct trading : account) (l r : list str) : tentry :=
+  (mkEntry (mkEffect (sqs_date r) [(sqs_cur l, sqs_net l); (sqs_cur r, sqs_net r)])
+           [mkLeg trading acct (sqs_cur l) (sqs_net l); mkLeg trading acct (sqs_cur r) (sqs_net r)]
+           (field l 2 ++ [32%Z] ++ to_string (sqs_net l) ++ [32%Z] ++ sqs_cur l ++ [32;47;32]%Z ++
+            field r 2 ++ [32%Z] ++ to_string (sqs_net r) ++ [32%Z] ++ sqs_cur r),
+   Some [sqs_cur l; sqs_cur r]).
+Definition sqs_single (acct dividend interest tax fee : account) (r : list str) : tentry :=
+  let d := sqs_date r in let cur := sqs_cur r in
+  match sqs_kind r with
+  | SqDividend =>
+    (mkEntry (mkEffect d ((cur, sqs_dec r 7) :: if is_zero (sqs_dec r 8) then [] else [(cur, neg (sqs_dec r 8))]))
+             (mkLeg dividend acct cur (sqs_dec r 7) :: if is_zero (sqs_dec r 8) then [] else [mkLeg acct tax cur (sqs_dec r 8)])
+             (field r 2 ++ [32%Z] ++ sqs_sym r ++ [32%Z] ++ field r 4 ++ [32%Z] ++ field r 5),
+     Some [sqs_sym r])
+  | SqCustody => (mkEntry (mkEffect d [(cur, sqs_net r)]) [mkLeg fee acct cur (sqs_net r)] (field r 2), Some [])
+  | SqInterest => (mkEntry (mkEffect d [(cur, sqs_net r)]) [mkLeg interest acct cur (sqs_net r)] (field r 2), Some [cur])
+  | _ => (mkEntry (mkEffect d [(cur, sqs_net r)]) [mkLeg tbd_account acct cur (sqs_net r)] (field r 2), None)
+  end.
+
+(* the entries of a statement; [pending] is the first row of an exchange whose second row has
+   not been seen yet (a purchase/sale may stand between the two) *)
+Fixpoint sqs_entries (acct dividend interest tax fee trading : account) (pending : option (list str))
+         (rows : list (list str)) : list tentry :=
+  match rows with
+  | [] => []
+  | r :: rest =>
+    match sqs_kind r with
+    | SqTrade => sqs_trade acct fee trading r :: sqs_entries acct dividend interest tax fee trading pending rest
+    | SqForex =>
+      match pending with
+      | None => sqs_entries acct dividend interest tax fee trading (Some r) rest
+      | Some l => sqs_exchange acct trading l r :: sqs_entries acct dividend interest tax fee trading None rest
+      end
+    | _ => sqs_single acct dividend interest tax fee r :: sqs_entries acct dividend interest tax fee trading None rest
+    end
+  end.
+
+(* a well-formed statement: well-formed rows, exchange rows in pairs with nothing but purchases
+   or sales between the two rows of a pair, no exchange left open at the end *)
+Fixpoint sqs_wf (pending : bool) (rows : list (list str)) : bool :=
+  match rows with
+  | [] => negb pending
+  | r :: rest =>
+    sqs_wf_row r &&
+    match sqs_kind r with
+    | SqTrade => sqs_wf pending rest
+    | SqForex => sqs_wf (negb pending) rest
+    | _ => negb pending && sqs_wf false rest
+    end
+  end.
